@@ -32,6 +32,26 @@ def invReal : CnsInverse := fun ch =>
   let w := invEntry ch
   bif Nat.beq w 0 then none else some (w / 65536, w / 256 % 256, w % 256)
 
+/-! ## notions the theorems about the real tables are stated with -/
+
+/-- the four-byte form of plane 1, and `8E A3 A1 B8` -/
+def EucUnit.redundant : EucUnit → Bool
+  | .four p r c _ => p == 1 || (p == 3 && r == 0xA1 && c == 0xB8)
+  | _ => false
+
+/-- no unit of the byte string is redundant -/
+def eucTwNoRedundant (cns : CnsTable) : Nat → List UInt8 → Bool
+  | 0, _ => true
+  | fuel + 1, bs =>
+    match eucTwUnit cns bs with
+    | .ascii _ => eucTwNoRedundant cns fuel (bs.drop 1)
+    | .two _ _ _ => eucTwNoRedundant cns fuel (bs.drop 2)
+    | .four p r c ch => !(EucUnit.four p r c ch).redundant && eucTwNoRedundant cns fuel (bs.drop 4)
+    | _ => true
+
+/-- a character Python can hold in a `str` -/
+def isScalar (c : Nat) : Bool := c ≤ 0x10FFFF && !(0xD800 ≤ c && c ≤ 0xDFFF)
+
 /-- EUC-TW of the system iconv -/
 def eucTwDecodeReal (bs : List UInt8) : Except (Nat × Bool) (List Nat) := eucTwDecode cnsReal bs
 def eucTwEncodeReal (cs : List Nat) : Except Nat (List UInt8) := eucTwEncode invReal cs
